@@ -489,3 +489,119 @@ def render_program_decorated(P, decor):
         return text
 
     return render_program(P, instr_renderer=deco)
+
+
+# ---------------------------------------------------------------------------
+# C02: programs whose instruction sizes depend on operand values
+
+def _lit(p):
+    return {"p": "lit", "lc": p, "c0": p[0], "nch": len(p)}
+
+
+def _par(name, ty="none", n=0):
+    return {"p": "par", "name": name, "ty": ty, "n": n, "sub": ""}
+
+
+def _cmp(op, l, r):
+    return {"k": "bin", "op": op, "l": l, "r": r}
+
+
+def _n(v):
+    return numlit(str(v)) if v >= 0 else {"k": "un", "op": "neg", "e": numlit(str(-v))}
+
+
+def gen_cascade_isa(rng):
+    rules = []
+    fams = rng.sample(["typed", "assert", "rel", "signed"], rng.randrange(1, 4))
+    if "typed" in fams:
+        widths = [8, 16, 24] if rng.random() < 0.6 else [8, 16]
+        for i, w in enumerate(widths):
+            rules.append({"block": "cpu", "sub": False, "pat": [_lit("ld"), {"p": "ws"}, _par("v", "u", w)],
+                          "prod": concat([numlit("0x1%d" % i), var("v")])})
+    if "assert" in fams:
+        th = [(None, 0x10, 8, "0x20"), (0x10, 0x100, 16, "0x21"), (0x100, None, 24, "0x22")]
+        if rng.random() < 0.3:
+            th = th[:2]          # leaves a gap above 0x100: no form applies
+        for lo, hi, w, op in th:
+            conds = []
+            if lo is not None:
+                conds.append(_cmp("ge", var("a"), numlit(hex(lo))))
+            if hi is not None:
+                conds.append(_cmp("lt", var("a"), numlit(hex(hi))))
+            cond = conds[0] if len(conds) == 1 else _cmp("land", conds[0], conds[1])
+            rules.append({"block": "cpu", "sub": False, "pat": [_lit("jmp"), {"p": "ws"}, _par("a")],
+                          "prod": {"k": "block", "es": [{"k": "call", "f": "assert", "args": [cond]},
+                                                        concat([numlit(op), {"k": "sshort", "e": var("a"), "n": numlit(str(w))}])]}})
+    if "rel" in fams:
+        rules.append({"block": "cpu", "sub": False, "pat": [_lit("br"), {"p": "ws"}, _par("a")],
+                      "prod": {"k": "block", "es": [
+                          {"k": "assign", "name": "r", "e": _cmp("sub", _cmp("sub", var("a"), var("$")), numlit("2"))},
+                          {"k": "call", "f": "assert", "args": [_cmp("land", _cmp("ge", var("r"), _n(-128)), _cmp("le", var("r"), numlit("127")))]},
+                          concat([numlit("0x30"), {"k": "sshort", "e": var("r"), "n": numlit("8")}])]}})
+        if rng.random() < 0.75:
+            rules.append({"block": "cpu", "sub": False, "pat": [_lit("br"), {"p": "ws"}, _par("a")],
+                          "prod": {"k": "block", "es": [
+                              {"k": "assign", "name": "r", "e": _cmp("sub", _cmp("sub", var("a"), var("$")), numlit("3"))},
+                              {"k": "call", "f": "assert", "args": [_cmp("lor", _cmp("lt", var("r"), _n(-128)), _cmp("gt", var("r"), numlit("127")))]},
+                              concat([numlit("0x31"), {"k": "sshort", "e": var("r"), "n": numlit("16")}])]}})
+    if "signed" in fams:
+        rules.append({"block": "cpu", "sub": False, "pat": [_lit("adds"), {"p": "ws"}, _par("v", "s", 8)],
+                      "prod": concat([numlit("0x40"), var("v")])})
+        rules.append({"block": "cpu", "sub": False, "pat": [_lit("adds"), {"p": "ws"}, _par("v", "s", 16)],
+                      "prod": concat([numlit("0x41"), var("v")])})
+    rules.append({"block": "cpu", "sub": False, "pat": [_lit("nop")], "prod": numlit("0x00")})
+    rules.append({"block": "cpu", "sub": False, "pat": [_lit("ldi"), {"p": "ws"}, _par("v")],
+                  "prod": concat([numlit("0x80"), {"k": "sshort", "e": var("v"), "n": numlit("8")}])})
+    rng.shuffle(rules)
+    mn = sorted(set(r["pat"][0]["lc"] for r in rules))
+    return {"rules": rules, "mnemonics": mn}
+
+
+def gen_cascade_program(rng, isa=None):
+    isa = isa or gen_cascade_isa(rng)
+    labels = ["L%d" % i for i in range(rng.randrange(1, 6))]
+    pending = list(labels)
+    rng.shuffle(pending)
+    items = []
+    casc = [m for m in isa["mnemonics"] if m in ("ld", "jmp", "br", "adds")]
+    for i in range(rng.randrange(3, 16)):
+        c = rng.random()
+        if pending and c < 0.25:
+            items.append({"k": "label", "lvl": 0, "name": pending.pop()})
+        elif c < 0.7:
+            m = rng.choice(casc + casc + ["nop", "ldi"])
+            if m == "nop":
+                toks = [tok("id", "nop", True)]
+            else:
+                toks = [tok("id", m, True)]
+                c2 = rng.random()
+                if m == "adds":
+                    v = rng.choice([-1, -128, -129, 127, 128, 5, -32768, 300])
+                    toks += ([tok("op", "-", True), num_tok(rng, -v, False, "dec")] if v < 0 else [num_tok(rng, v, True, "dec")])
+                elif c2 < 0.7:
+                    toks += name_tokens(rng.choice(labels), True)
+                    if rng.random() < 0.2:
+                        toks += [tok("op", "+", True), num_tok(rng, rng.choice([1, 2, 0x10, 0xf0, 0x100]), True, "hex")]
+                elif c2 < 0.8:
+                    toks += [tok("id", "$", True)]
+                else:
+                    toks += [num_tok(rng, rng.choice([0, 5, 15, 16, 255, 256, 300, 65535, 65536]), True)]
+            items.append({"k": "instr", "toks": toks})
+        elif c < 0.8:
+            items.append({"k": "data", "w": rng.choice([8, 16]),
+                          "es": [{"k": "var", "lvl": 0, "path": [rng.choice(labels)]} if rng.random() < 0.6
+                                 else {"k": "num", "text": list(str(rng.randrange(0, 200)))}]})
+        elif c < 0.9:
+            items.append({"k": "res", "n": rng.choice([0, 1, 3, 14, 0x70, 0xf0, 0x100])})
+        elif c < 0.95:
+            items.append({"k": "align", "n": rng.choice([16, 32, 64])})
+        else:
+            items.append({"k": "addr", "n": rng.choice([0x8, 0x10, 0xfe, 0x100, 0x120])})
+    for lab in pending:
+        items.append({"k": "label", "lvl": 0, "name": lab})
+    out = []
+    for it in items:
+        base = {"k": it["k"], "lvl": 0, "name": "", "e": {"k": "none"}, "toks": [], "w": -1, "es": [], "n": 0}
+        base.update(it)
+        out.append(base)
+    return {"rules": isa["rules"], "items": out}
